@@ -25,7 +25,7 @@ var checks = map[string]check{
 		ID: "C17", Pkg: "c17", NeedTrim: true,
 		Jobs: []job{
 			{Run: "^TestDumpRoundTrip$", Quick: 1200, QShards: 10, Thor: 40000, TShards: 15},
-			{Run: "^TestTrimmerRewrite$", Quick: 40, QShards: 3, Thor: 1500, TShards: 8},
+			{Run: "^TestTrimmerRewrite$", Quick: 40, QShards: 3, Thor: 400, TShards: 8},
 		},
 		Rule:   "IDL models (1-3 files) with annotations on every node kind, literals over an alphabet with both quotes, &, <, >, #, backslash pairs and HTML entities, negative ids, nested constant literals, doubles across magnitudes, cpp_include; parsed by the real front end, every file dumped with dump.DumpIDL and the dumped program re-parsed, re-checked and compared file by file; non-trivial = program with >=1 literal containing a quote character and >=1 containing '&' or a backslash, distinct by text",
 		Assume: []string{"comments and cpp_type are not compared (the property does not list them)", "a double with an integral value may come back as an integer constant of equal value"},
@@ -105,7 +105,7 @@ var checks = map[string]check{
 	"C18": {
 		ID: "C18", Pkg: "c18", NeedBin: true, MaxPar: 8,
 		Jobs: []job{
-			{Run: "^TestDeepEqual$", Quick: 4, QShards: 8, Thor: 60, TShards: 14},
+			{Run: "^TestDeepEqual$", Quick: 4, QShards: 8, Thor: 30, TShards: 14},
 		},
 		Rule:   "one rapid case = one generated program under go:gen_deep_equal (+0-2 presentation-only options) built into a driver, then 30-100 pairs (copy, exactly one leaf changed at a drawn depth, independent values, same object, nil receivers/arguments/fields) judged against a reference structural equality, plus Write on sets with/without an injected duplicate (validate_set); non-trivial = the pair differs in exactly one leaf at depth >=2, or only in one map key; distinct by program, configuration, struct and both values",
 		Assume: []string{"the expectation is computed under a strict and a liberal reading of the statement and asserted only where both agree (otherwise only no-panic and symmetry): optional binary unset vs empty, optional-with-default absent vs present-equal-to-default, nil pointer vs object", "NaN and -0 are not generated; sets are compared in order"},
@@ -116,7 +116,7 @@ var checks = map[string]check{
 			{Run: "^TestRoundTrip$", Quick: 1500, QShards: 4, Thor: 40000, TShards: 14},
 			{Run: "^TestCompression$", Quick: 1500, QShards: 4, Thor: 40000, TShards: 14},
 			{Run: "^TestOptions$", Quick: 5000, QShards: 1, Thor: 100000, TShards: 4},
-			{Run: "^TestEndToEnd$", Quick: 60, QShards: 4, Thor: 2500, TShards: 14},
+			{Run: "^TestEndToEnd$", Quick: 60, QShards: 4, Thor: 600, TShards: 14},
 		},
 		Rule:   "in-process: requests wrapping ASTs that the real front end produced from generated multi-file models (diamond includes, resolved references) with drawn strings; Marshal/Unmarshal identity, include compression + data trailer identity and restoration of the compiler's own tree, option string round trip. end to end: thriftgo runs a scripted plugin that dumps the decoded request (compared with the request the harness builds in-process) and answers per a drawn script: files, unnamed/named patches, warnings, error, exit status, truncated/garbage/empty stdout, delay beyond --plugin-time-limit; non-trivial = AST with a diamond include and >=1 resolved external reference, or a fault response; distinct by case",
 		Assume: []string{"reorder_fields and trim_idl are not drawn (they rewrite the request AST before plugins run)", "garbage stdout is generated only when certainly malformed", "'no output after a fault' is asserted because generation fails before anything is persisted"},
@@ -124,7 +124,7 @@ var checks = map[string]check{
 	"C07": {
 		ID: "C07", Pkg: "c07", NeedBin: true, MaxPar: 8,
 		Jobs: []job{
-			{Run: "^TestDeterministic$", Quick: 25, QShards: 6, Thor: 360, TShards: 14},
+			{Run: "^TestDeterministic$", Quick: 25, QShards: 6, Thor: 200, TShards: 14},
 		},
 		Rule:   "GoSafe models (3-4 files) boosted with 2-5 annotation keys per node, 2-9-entry map constants and services throwing 2-5 exception types x 9 configuration classes (default, with_reflection, gen_type_meta, with_field_mask, fastgo, reserve_comments, template=slim, random go/fastgo option sets) x optional recording/patching plugin; k=4 (quick) / 12 (thorough) fresh processes under GOMAXPROCS 1/2/4/16 with -o directories of different name lengths, some dirty; the multiset (relative path, sha256) and the bytes a plugin receives must be identical; non-trivial = (node with >=2 annotation keys or map constant with >=2 entries) and >=2 generated files, distinct by files + args + plugin",
 		Assume: []string{"stdout/stderr are not compared", "plugin cases keep one -o string (the request embeds it)", "a two-entry Go map shows its minority order in roughly one process in eight, so a single nondeterministic map is caught by k=4 with probability about 0.4 per program; witnesses replay with k>=80"},
@@ -140,7 +140,7 @@ var checks = map[string]check{
 	"C10": {
 		ID: "C10", Pkg: "c10", NeedBin: true, MaxPar: 8,
 		Jobs: []job{
-			{Run: "^TestFast$", Quick: 3, QShards: 8, Thor: 50, TShards: 14},
+			{Run: "^TestFast$", Quick: 3, QShards: 8, Thor: 30, TShards: 14},
 		},
 		Rule:   "one rapid case = one generated program under -g fastgo (+0-2 presentation options) built into a driver, then 10-20 (struct, value) pairs, each through the modes write (FastAppend/FastWrite/BLength vs reference decoder and standard Read), read (FastRead vs standard Read on standard and reference encodings, both field orders), unknown / retag / omit_required perturbations, and a sweep over every truncation point (<=512) and single-byte corruptions of type bytes (field, stop, element, map key/value); non-trivial = sweep case, or a value with >=1 optional-with-default field and >=1 container inside a container",
 		Assume: []string{"FastWrite/FastAppend bytes are compared with the reference by decoded value (byte identity only without multi-entry maps)", "the violation is fast != standard (status, offset, object) or a panic; cases where the standard codec itself fails are counted and left to C02", "inputs announcing more than 2^20 elements are skipped on the read path so the watchdog cannot make runs flaky"},
@@ -150,7 +150,7 @@ var checks = map[string]check{
 		Jobs: []job{
 			{Run: "^TestRepoCases$|^TestHandWritten$", Quick: 1, QShards: 1, Thor: 1, TShards: 1},
 			{Run: "^TestTrimAPI$", Quick: 700, QShards: 8, Thor: 20000, TShards: 14},
-			{Run: "^TestTrimBinary$", Quick: 40, QShards: 4, Thor: 1500, TShards: 14},
+			{Run: "^TestTrimBinary$", Quick: 40, QShards: 4, Thor: 400, TShards: 14},
 		},
 		Rule:   "multi-file IDL models with services and many struct-likes x trimmer arguments (none; -m exact, anchored regexps, unqualified names; preserve on/off; @preserve comments; preserved-struct list) through trim.TrimAST in-process and the trimmer binary (-r -o); oracle = reachability closure computed from the model (soundness: everything reachable kept; exactness: nothing else; includes), dumped result passes the front end, idempotence, kept struct-likes keep their fields, compile sample; non-trivial = >=1 struct-like removed and >=1 struct-like outside the main file kept only through a typedef or a container element, distinct by files + arguments + entry point",
 		Assume: []string{"-m patterns are exact names or anchored regexps whose meaning is unambiguous; the trimmer's substring heuristics for unanchored patterns are not part of the property", "services of included files that are not a base of a kept service: nothing asserted without -m", "include survival is asserted only where the property is explicit (must stay if referenced or holding constants/enums/typedefs; must go if nothing kept names it and its subtree holds none of those)"},
@@ -158,8 +158,8 @@ var checks = map[string]check{
 	"C04": {
 		ID: "C04", Pkg: "c04", NeedBin: true, MaxPar: 12,
 		Jobs: []job{
-			{Run: "^TestInvalidIDL$", Quick: 60, QShards: 8, Thor: 4000, TShards: 14},
-			{Run: "^TestInvalidCommandLine$", Quick: 40, QShards: 3, Thor: 600, TShards: 6},
+			{Run: "^TestInvalidIDL$", Quick: 60, QShards: 8, Thor: 1200, TShards: 14},
+			{Run: "^TestInvalidCommandLine$", Quick: 40, QShards: 3, Thor: 300, TShards: 6},
 		},
 		Rule:   "a valid generated program (1-4 files) x exactly one rule-breaking edit from the property's catalogue at a drawn position (main or transitively included file; struct/union/exception/args/throws/typedef/const/enum/service; local, qualified or unknown-prefix reference; include cycle of length 1-4) x go/fastgo x -r on/off, and invalid command lines; oracle on the binary: exit status != 0, a diagnostic, empty output directory, no Go panic/fatal trace, no hang; the unedited program must exit 0 with its expected files; non-trivial = the edit sits in an included file or a nested position (args, throws, container or literal element), or the shortest include cycle is >=2, distinct by files + arguments",
 		Assume: []string{"duplicate ids or names inside args/throws lists are not enforced by thriftgo and are not in the catalogue as generated", "backend-enforced edits (string for integer, unknown field / non-string key in a struct literal) in an included file are run with -r (without it an unused include is never evaluated)", "a valid program that is rejected is counted and skipped (C01's domain)"},
@@ -167,7 +167,7 @@ var checks = map[string]check{
 	"C13": {
 		ID: "C13", Pkg: "c13", NeedBin: true, MaxPar: 8,
 		Jobs: []job{
-			{Run: "^TestMask$", Quick: 3, QShards: 8, Thor: 50, TShards: 14},
+			{Run: "^TestMask$", Quick: 3, QShards: 8, Thor: 25, TShards: 14},
 			{Run: "^TestAnchor$", Quick: 1, QShards: 1, Thor: 1, TShards: 1},
 		},
 		Rule: "one rapid case = one program generated with go:with_field_mask,with_reflection plus one of {nothing, field_mask_halfway, field_mask_zero_required}, built into a driver, then 40-100 (root struct, value, path set, white/black) pairs; paths are drawn along the value (fields by name/id, indices in and out of range, present/absent int and string keys, *, depth <= 4, multi-key steps, conflict-free or (1/8) conflicting), plus nil-mask, empty-mask and mask-attached-to-child (halfway) modes; non-trivial = strict non-empty subset of a container of size >= 3 including its last element, or mask depth >= 3",
@@ -188,8 +188,8 @@ var checks = map[string]check{
 	"C09": {
 		ID: "C09", Pkg: "c09", NeedBin: true, MaxPar: 8,
 		Jobs: []job{
-			{Run: "^TestRuntime$", Quick: 3000, QShards: 8, Thor: 60000, TShards: 14},
-			{Run: "^TestEvolve$", Quick: 2, QShards: 8, Thor: 30, TShards: 14},
+			{Run: "^TestRuntime$", Quick: 3000, QShards: 8, Thor: 30000, TShards: 14},
+			{Run: "^TestEvolve$", Quick: 2, QShards: 8, Thor: 15, TShards: 14},
 		},
 		Rule:   "layer A (in-process): one unknown field of any Thrift type from a recursive generator (all wire types, nesting up to and beyond the documented depth limit) through unknown.Fields Append/Write must come back byte-exactly, beyond the limit the documented error; layer B: pairs (old, new) where old is derived from a generated new by removing optional/default fields at any depth, enum members and union members, generated as go (new) and go / go:keep_unknown_fields (old), built into three drivers; values of new travel along chains old->new->old up to length 3; non-trivial = the removed set contains a container- or struct-typed field below the top level (B), or a nested unknown field of depth >= 3 (A)",
 		Assume: []string{"old may lack only non-required fields, enum members and union members that no constant or default mentions", "the carrying-unknown-fields flag is asserted for the top-level object only", "depth 65 may go either way (the documentation does not say whether the outermost value counts)"},
